@@ -74,6 +74,7 @@ let port_act (p : port) (act : string) : port =
   | _ -> failwith "bad port action"
 
 let known = ref false
+let loads = ref 0
 let classes = ref []
 let cls c = if not (List.mem c !classes) then classes := c :: !classes
 let has_byte b (s : n list) = List.exists (fun x -> int_of_n x = b) s
@@ -81,6 +82,7 @@ let has_byte b (s : n list) = List.exists (fun x -> int_of_n x = b) s
 let handle (payload : string) : string =
   classes := [];
   known := false;
+  loads := 0;
   let st = ref st0 in
   let out = ref [] in
   let emit s = out := s :: !out in
@@ -157,7 +159,11 @@ let handle (payload : string) : string =
            else if k = total - 1 then "crash-before-rename" else if k = 1 then "crash-after-open" else "crash-mid-write");
       st := step !st (OCrashSave (nat_of_int k));
       emit ("s" ^ n ^ "=" ^ dump !st.mem ^ save_keys n before !st)
-    | ["l"] -> st := step !st OLoad; cls "load"; emit ("s" ^ n ^ "=" ^ dump !st.mem)
+    | ["l"] | ["lf"] ->
+      (* Load() / LoadFromFile() on the live object: the store becomes what the file holds, every time *)
+      if !loads > 0 then cls "reload-same-object" else cls "load";
+      incr loads;
+      st := step !st OLoad; emit ("s" ^ n ^ "=" ^ dump !st.mem)
     | ["L"] -> st := step !st ORestart; cls "restart"; emit ("s" ^ n ^ "=" ^ dump !st.mem)
     | ["F"; b] ->
       cls "raw-file";
